@@ -8,9 +8,9 @@ use std::panic::{catch_unwind, AssertUnwindSafe};
 
 pub struct C09;
 
-pub const VOCAB: [&str; 44] = ["encrypt", "enc", "decrypt", "dec", "key", "generate", "gen", "change-pass", "extract-pub", "password", "pass", "--env-pass",
+pub const VOCAB: [&str; 48] = ["encrypt", "enc", "decrypt", "dec", "key", "generate", "gen", "change-pass", "extract-pub", "password", "pass", "--env-pass",
     "-t", "--to", "-f", "--from", "-o", "--output", "-k", "--keyring", "-h", "--help", "-v", "--version", "--", "-", "bob", "alice", "nobody", "in.bin", "out.bin", "kr.txt", "missing.bin",
-    "", "-x", "--to=bob", "-o=out.bin", "=", "é", "<SK>", "..", "nodir/..", ".", "/"];
+    "", "-x", "--to=bob", "-o=out.bin", "=", "é", "<SK>", "..", "nodir/..", ".", "/", "--from=alice", "-f=alice", "-from", "--t"];
 
 fn guard<T, F: FnOnce() -> T>(f: F) -> Option<T> { catch_unwind(AssertUnwindSafe(f)).ok() }
 
@@ -73,7 +73,7 @@ impl Prop for C09 {
     fn rule(&self) -> String {
         "per untrusted-input surface, under catch_unwind with overflow checks and debug assertions on: AEAD ciphertexts of every length 0..64 and 1 KiB; Noise handshake messages of every length 0..200, 65535, 65536 \
          (random, and prefixes / bit flips of a valid message); key-mode and password-mode files = every prefix of valid files, single-bit flips, hostile length and flag fields, wrong magics, appended bytes, random bytes; \
-         encoded public / private key strings over {base64 alphabet, padding, whitespace, UTF-8} with lengths 0..130; keyring texts; heap peak while rejecting hostile length fields; the real binary with every argument vector of length <= 2 over a 44-word vocabulary (incl. path oddities: empty, `.`, `..`, `nodir/..`, `/`) (commands, aliases, options in all spellings, values, oddities) and seeded longer vectors, in a world with files, environment and piped stdin but no terminal: exit status 0 or 1, an Error: line iff 1, no signal, no hang, and the same exit status and files as the Lean CLI model; argument vectors and a KESTREL_PASSWORD value containing invalid UTF-8 (5 byte patterns x 6 positions): exit 1 with an Error: line, nothing written; and the commands that take a password run with a terminal on standard input (a pseudo-terminal nobody types on) and a wrong or unset KESTREL_PASSWORD: they must terminate with exit 1. \
+         encoded public / private key strings over {base64 alphabet, padding, whitespace, UTF-8} with lengths 0..130; keyring texts; heap peak while rejecting hostile length fields; the real binary with every argument vector of length <= 2 over a 48-word vocabulary (incl. path oddities: empty, `.`, `..`, `nodir/..`, `/`) (commands, aliases, options in all spellings, values, oddities) and seeded longer vectors, in a world with files, environment and piped stdin but no terminal: exit status 0 or 1, an Error: line iff 1, no signal, no hang, and the same exit status and files as the Lean CLI model; argument vectors and a KESTREL_PASSWORD value containing invalid UTF-8 (5 byte patterns x 6 positions): exit 1 with an Error: line, nothing written; and the commands that take a password run with a terminal on standard input (a pseudo-terminal nobody types on) and a wrong or unset KESTREL_PASSWORD: they must terminate with exit 1. \
          compared: result class (ok | err | crash) of the implementation vs the Lean model; non-trivial = distinct (surface, length / mutation kind, outcome)".into()
     }
     fn cases(&self, tier: &str, seed: u64) -> Vec<Case> {
